@@ -298,6 +298,54 @@ fn mutated(rng: &mut Rng, q: &mut Q, rep: &mut Report) {
     }
 }
 
+/// A square text that is symmetric except in ONE pair of mirrored entries, over a value set full of zeros (0, -0, small
+/// numbers): the strict parser must reject it whichever of the two entries was changed, whatever the other one is (a zero in
+/// the earlier row must not be mistaken for "not written yet"), and accept the symmetric original.
+fn one_asymmetric_pair(rng: &mut Rng, q: &mut Q, rep: &mut Report) {
+    let n = rng.range(2, 6);
+    let vals = ["0", "-0", "0.0", "1", "2", "0.5", "7", "1e-300"];
+    let mut tab = vec![vec!["0".to_string(); n]; n];
+    for i in 0..n {
+        for j in 0..i {
+            let v = if rng.chance(1, 2) { "0" } else { *rng.pick(&vals) };
+            tab[i][j] = v.to_string();
+            tab[j][i] = v.to_string();
+        }
+    }
+    let render = |tab: &Vec<Vec<String>>| -> String {
+        let mut s = format!("{n}\n");
+        for (i, r) in tab.iter().enumerate() {
+            s.push_str(&format!("s{i}  {}\n", r.join("  ")));
+        }
+        s
+    };
+    let sym = render(&tab);
+    rep.case(&format!("text {}", hex(&sym)), true);
+    parse_all(&sym, q, rep, true);
+    if !real_parse64("strict-square", &sym).starts_with("ok") {
+        rep.oracle("strict", "symmetric-matrix-refused", &format!("ph.parse\tstrict-square\t{}", hex(&sym)), &real_parse64("strict-square", &sym));
+    }
+    let (i, j) = loop {
+        let (i, j) = (rng.below(n), rng.below(n));
+        if i != j {
+            break (i, j);
+        }
+    };
+    let old: f64 = tab[i][j].parse().unwrap();
+    let new = loop {
+        let v = *rng.pick(&vals);
+        if v.parse::<f64>().unwrap() != old {
+            break v;
+        }
+    };
+    tab[i][j] = new.to_string();
+    let asym = render(&tab);
+    rep.case(&format!("text {}", hex(&asym)), true);
+    rep.count(if i < j { "asymmetric:upper-entry-changed" } else { "asymmetric:lower-entry-changed" });
+    rep.count(if old == 0.0 { "asymmetric:from-zero" } else if new.parse::<f64>().unwrap() == 0.0 { "asymmetric:to-zero" } else { "asymmetric:between-nonzero" });
+    parse_all(&asym, q, rep, true);
+}
+
 pub fn run(thorough: bool, seed: u64, driver: &str, rep: &mut Report) {
     enum Job {
         Exhaustive { len: usize, from: u64, to: u64 },
@@ -442,8 +490,11 @@ pub fn run(thorough: bool, seed: u64, driver: &str, rep: &mut Report) {
                 }
                 Job::Mutated { seed, n } => {
                     let mut rng = Rng::new(seed);
-                    for _ in 0..n {
+                    for k in 0..n {
                         mutated(&mut rng, &mut q, rep);
+                        if k % 4 == 0 {
+                            one_asymmetric_pair(&mut rng, &mut q, rep);
+                        }
                     }
                 }
             }
